@@ -447,7 +447,7 @@ func c15History(c *vrep.Ctx) {
 			ops = append(ops, op{[]string{"syn-a.txt", "syn-b.txt"}, []int{va, vb}, -1})
 		}
 	}
-	c.R.Rule = fmt.Sprintf("load histories: ALL sequences of 1..%d archive builds+loads in one process over 2 synthetic file names x 2 content versions each, and builds of two real licenses into a writer that fails after 0/512/2048/8192/20000 bytes (%d operations: {a}, {b}, {a,b} x versions, 5 failed builds); after EVERY load the archive-loaded classifier must answer exact, lightly edited and embedded queries for the CURRENT contents like a classifier built directly from them; non-trivial = distinct (history, query) comparisons", depth, len(ops))
+	c.R.Rule = fmt.Sprintf("load histories: ALL sequences of 1..%d archive builds+loads in one process over 2 synthetic file names x 2 content versions each, and builds of two real licenses into a writer that fails after 0/512/2048/8192/20000 bytes (%d operations: {a}, {b}, {a,b} x versions, 5 failed builds); after EVERY load the archive-loaded classifier must answer exact, lightly edited and embedded queries for the CURRENT contents like a classifier built directly from them, and every classifier loaded EARLIER in the history is asked its queries again after each later load; non-trivial = distinct (history, query) comparisons", depth, len(ops))
 	c.Bound("depth", depth)
 	c.Bound("operations", len(ops))
 	body := func(r *vx.Run) {
@@ -462,6 +462,14 @@ func c15History(c *vrep.Ctx) {
 		msg := ""
 		nq := 0
 		var desc []string
+		// classifiers loaded earlier in the history stay in use: each is asked again after every later
+		// load and must still answer like the classifier built directly from ITS contents
+		type heldClassifier struct {
+			in, ref *sc.Classifier
+			queries []string
+			step    int
+		}
+		var held []heldClassifier
 		for step, oi := range hist {
 			o := ops[oi]
 			if o.limit >= 0 {
@@ -506,6 +514,19 @@ func c15History(c *vrep.Ctx) {
 				for name, t := range cur {
 					ref.AddValue(name, normalize(t))
 				}
+				for _, h := range held {
+					for _, n1 := range h.queries {
+						nq++
+						var a, b sc.Matches
+						vsync.RunDefault(func() { a = h.in.MultipleMatch(n1) })
+						vsync.RunDefault(func() { b = h.ref.MultipleMatch(normalize(n1)) })
+						if fmtMatches(a) != fmtMatches(b) && msg == "" {
+							msg = fmt.Sprintf("the classifier loaded in step %d, asked again after load %d: MultipleMatch differs: archive-loaded [%s], directly built [%s]", h.step+1, step+1, fmtMatches(a), fmtMatches(b))
+						}
+					}
+				}
+				hc := heldClassifier{in: in, ref: ref, step: step}
+				defer func() { held = append(held, hc) }()
 				for _, t := range cur {
 					w := strings.Fields(t)
 					edited := append([]string(nil), w...)
@@ -517,6 +538,7 @@ func c15History(c *vrep.Ctx) {
 					for _, q := range []string{t, strings.Join(edited, " "), "intro words about rights " + strings.Join(edited[3:], " ") + " trailing version"} {
 						nq++
 						n1 := normalize(q)
+						hc.queries = append(hc.queries, n1)
 						var a, b sc.Matches
 						vsync.RunDefault(func() { a = in.MultipleMatch(n1) })
 						vsync.RunDefault(func() { b = ref.MultipleMatch(normalize(n1)) })
